@@ -4,3 +4,55 @@ From MirV Require Import Base.W64 Mir.Opcode C11.Tables C11.Ast C11.BinIO C10.Te
 Import ListNotations.
 Local Open Scope Z_scope.
 Local Notation length := List.length.
+
+(* ---------------------------------------------------------------- the printer does not see what a binary
+   read normalises (scale without index, size of a non-block argument) *)
+
+Section PrintNorm.
+  Variables fF fD fLD : Z -> bytes.
+
+  Lemma p_mem_norm m : p_mem (norm_mem m) = p_mem m.
+  Proof. destruct m as [t d b i sc a na]. unfold p_mem, norm_mem. cbn. destruct i; reflexivity. Qed.
+
+  Lemma p_op_norm o : p_op fF fD fLD (norm_op o) = p_op fF fD fLD o.
+  Proof. destruct o; try reflexivity. cbn. apply p_mem_norm. Qed.
+
+  Lemma sep_list_map {A} sep (f : A -> bytes) (g : A -> A) l :
+    (forall x, f (g x) = f x) -> sep_list sep f (map g l) = sep_list sep f l.
+  Proof.
+    intros H. destruct l as [|x l]; [reflexivity|]. cbn [map sep_list]. rewrite H. f_equal.
+    induction l as [|y l IH]; [reflexivity|]. cbn. now rewrite H, IH.
+  Qed.
+
+  Lemma p_insn_norm i : p_insn fF fD fLD (norm_insn i) = p_insn fF fD fLD i.
+  Proof.
+    destruct i as [l|c ops]; [reflexivity|]. cbn [norm_insn p_insn].
+    rewrite (sep_list_map comma (p_op fF fD fLD) norm_op ops p_op_norm). destruct ops; reflexivity.
+  Qed.
+
+  Lemma p_arg_norm v : p_arg (norm_var v) = p_arg v.
+  Proof. destruct v as [t n sz]. unfold p_arg, norm_var. cbn. destruct (all_blk_type_p t); reflexivity. Qed.
+
+  Lemma p_proto_tail_norm va res args : p_proto_tail va res (map norm_var args) = p_proto_tail va res args.
+  Proof.
+    unfold p_proto_tail. rewrite map_map. rewrite (map_ext _ _ p_arg_norm). destruct res, args; reflexivity.
+  Qed.
+
+  Lemma flat_map_norm {A} (f : A -> bytes) (g : A -> A) l : (forall x, f (g x) = f x) -> flat_map f (map g l) = flat_map f l.
+  Proof. intros H. induction l as [|x l IH]; [reflexivity|]. cbn. now rewrite H, IH. Qed.
+
+  Lemma p_item_norm it : p_item fF fD fLD (norm_item it) = p_item fF fD fLD it.
+  Proof.
+    destruct it as [x|x|x|x l|x t els|x r d|x l l2 d|x f|x va res args|f]; try reflexivity.
+    - cbn [norm_item p_item]. now rewrite p_proto_tail_norm.
+    - cbn [norm_item p_item]. unfold p_func, norm_func. cbn [f_name f_vararg f_res f_args f_locals f_globals f_insns].
+      rewrite p_proto_tail_norm, map_length.
+      now rewrite (flat_map_norm (p_insn fF fD fLD) norm_insn (f_insns f) p_insn_norm).
+  Qed.
+
+  Lemma p_ctx_norm ms : p_ctx fF fD fLD (map norm_module ms) = p_ctx fF fD fLD ms.
+  Proof.
+    unfold p_ctx. apply flat_map_norm. intros m. unfold p_module, norm_module. cbn [mod_name mod_items].
+    now rewrite (flat_map_norm (p_item fF fD fLD) norm_item (mod_items m) p_item_norm).
+  Qed.
+End PrintNorm.
